@@ -3,3 +3,11 @@ import DiffxVerif.Properties.C01
 #print axioms Diffx.C01.C01_indent_inverse
 #print axioms Diffx.C01.C01_content_text
 #print axioms Diffx.C01.C01_content_diff
+#print axioms Diffx.C01.prepared0
+#print axioms Diffx.C01.textLaws0
+#print axioms Diffx.C01.C01_content_text_instance
+#print axioms Diffx.C01.textLawsDos
+#print axioms Diffx.C01.C01_content_text_instance_dos
+#print axioms Diffx.C01.preparedDiff0
+#print axioms Diffx.C01.diffLaws0
+#print axioms Diffx.C01.C01_content_diff_instance
